@@ -10,7 +10,8 @@
         that has no string-type parameter                  (known-finding class)
      41 as 4, for a type/params using EXPLICIT tagging   (known-finding class)
      5  C04: Go marshal panicked
-     90 (not a mismatch) a marshalled value outside the hypotheses [ok] of C05_roundtrip
+     90 (not a mismatch) a marshalled value outside the hypotheses [ok] of C05_roundtrip, type or
+        parameters using EXPLICIT tagging; 92 likewise, for any other reason
    and by [run_dcases] (arbitrary bytes, bercorr -mode dec):
      6  dec (model) <> outcome of Go Unmarshal                     (correspondence)
      7  C16 monitor on the implementation: Go panicked or did not terminate
@@ -92,7 +93,11 @@ Definition check_bcase (c : bcase) : list (Z * Z) :=
   let m_enc := enc t p v in
   (if outcome_eqb zlist_eqb m_enc (bc_enc c) then [] else [(i, 1)]) ++
   (* 90: not a mismatch -- the case lies outside the hypotheses of C05_roundtrip (counted) *)
-  (match bc_enc c with Ok _ => if ok t p v then [] else [(i, 90)] | _ => [] end) ++
+  (match bc_enc c with
+   | Ok _ => if ok t p v then []
+             else if (p_explicit p && (match p_tag p with Some _ => true | None => false end)) || has_explicit t
+                  then [(i, 90)] else [(i, 92)]
+   | _ => [] end) ++
   match bc_enc c with
   | Ok bs =>
     (if outcome_eqb value_eqb (dec t p bs) (bc_dec c) then [] else [(i, 2)]) ++
